@@ -21,6 +21,13 @@ fn secs(t: Time) -> f32 {
     Quantity::from(t).value
 }
 
+/// a non-zero integer of 1..60 significant bits, either sign, low bits random
+fn big_int(r: &mut Rng) -> i64 {
+    let bits = r.range(1, 60) as u32;
+    let v = ((r.next() >> (64 - bits)) | (1u64 << (bits - 1))) as i64;
+    if r.next() & 1 == 0 { v } else { -v }
+}
+
 struct Vals {
     v1: f32,
     v2: f32,
@@ -132,8 +139,10 @@ fn grid_case(rec: &Value, rng: &mut Rng) -> Option<(String, Value, Value)> {
             v2: match round { 5 => 0.0, 6 => -0.0, 7 => v1, 0 if form == "eq" => v1, _ => rng.float(-12, 12) },
             t1: Time(rng.range(-4_000_000_000_000, 4_000_000_000_000)),
             t2: Time(rng.range(1, 4_000_000_000_000) * if rng.next() & 1 == 0 { 1 } else { -1 }),
-            d1: DimensionlessInteger(rng.range(-100_000, 100_000)),
-            d2: DimensionlessInteger(rng.range(1, 100_000) * if rng.next() & 1 == 0 { 1 } else { -1 }),
+            // integers: small in the first rounds, then stratified over magnitudes up to 2^60 with random low bits (an integer that f32
+            // cannot hold exactly shows whether the operator works on the converted operand, as the plain f32 operator does)
+            d1: DimensionlessInteger(if round < 2 { rng.range(-100_000, 100_000) } else { big_int(rng) }),
+            d2: DimensionlessInteger(if round < 2 { rng.range(1, 100_000) * if rng.next() & 1 == 0 { 1 } else { -1 } } else { big_int(rng) }),
         };
         let got = catch(|| real(form, assign, l, r, &v));
         let exp_panic = res["panic"].as_bool().unwrap();
